@@ -49,6 +49,8 @@ THEOREMS = [
     "Pyval.display_eq_render", "Pyval.display_const_full", "Pyval.nul_dropped_old_counterexample",
     "Pyval.output_marked", "Pyval.exec_spec", "Pyval.wrap_marked", "Pyval.wrap_prefix_counterexample",
     "Pyval.trimResult_prefix", "Pyval.cut_shows_written", "Pyval.line_budget_counterexample",
+    "Pyval.reLiteral_roundtrip", "Pyval.reLiteral_old_counterexample",
+    "Pyval.groupref_reads_back", "Pyval.groupref_old_counterexample",
 ]
 PARTIAL = {
     "Pyval.render_groups_partial": "okTree excludes trees containing a one-element tuple (also as subscript index), an empty tuple as subscript index, a delegated node on which astor raised ('??'); the right-operand and huge-int exclusions are gone with b6b97a7 / 61018a8",
@@ -60,6 +62,9 @@ PARTIAL = {
     "Pyval.paren_table_old_exact": "HISTORICAL: describes the code before b6b97a7 (decisionOld)",
     "Pyval.paren_table_old_counterexample": "HISTORICAL: a-(b-c), a/(b*c), a-(b+c) before b6b97a7",
     "Pyval.bytes_roundtrip_old_counterexample": "HISTORICAL: b\"it's\" before 257fc5a (bytesEscapeOld)",
+    "Pyval.reLiteral_old_counterexample": "HISTORICAL: a bare blank / '#' in a verbose pattern before 55809ad (reLiteralOld)",
+    "Pyval.groupref_old_counterexample": "HISTORICAL: (a)\\1 followed by the literal 0 written \\10 before fd7f5b9 (reGroupRefOld)",
+    "Pyval.groupref_reads_back": "group numbers below 100 (the vendored parser's limit), next element a LITERAL or nothing",
     "Pyval.unstring_counterexample_old": "HISTORICAL: \"a | b\" & c before a1c047d (Expr.unlinked)",
     "Pyval.nul_dropped_old_counterexample": "HISTORICAL: '\\x00' before e938da2 (strEscapeOld)",
 }
@@ -77,7 +82,7 @@ RULE = ("corpus first (every finding's input, every seeded change's shape: seede
 ASSUMPTIONS = [
     "expressions are colourized as pydoctor does it: the node has no expression parent (top level of a default, annotation, decorator, base, constant value)",
     "regex criterion: a displayed pattern is right when CPython's re._parser gives it the same parse tree and flags as the source pattern (so (?P=n) shown as \\1, dropped (?#comments), 'ab|ac' shown as 'a[bc]' pass: same regex, other spelling); the call must keep its flags expression and its * / ** arguments",
-    "re.compile(<constant>) goes through the regex colourizer (_colorize_ast_re, _colorize_re_pattern, _colorize_re_tree over pydoctor's vendored sre_parse36): NOT modelled; the regex stream checks it with the direct oracle only (same call, same flags expression, pattern constant equal or read as the same regex by CPython's re._parser under the compile flags the flags argument designates - both 0 and re.VERBOSE when it is not a constant; patterns CPython itself rejects are exempt); the other streams never generate re.compile",
+    "re.compile(<constant>) goes through the regex colourizer (_colorize_ast_re, _colorize_re_pattern, _colorize_re_tree over pydoctor's vendored sre_parse36): only the LITERAL and GROUPREF branches of _colorize_re_tree are modelled (reLiteral, reGroupRef; re-elements stream against the real method on tiny trees); everything else is NOT modelled: the regex stream checks it with the direct oracle only (same call, same flags expression, pattern constant equal or read as the same regex by CPython's re._parser under the compile flags the flags argument designates - both 0 and re.VERBOSE when it is not a constant; patterns CPython itself rejects are exempt); the other streams never generate re.compile",
     "_storeAttrValue is modelled (storeAttrValue/storeAll); that the builder calls it once per assignment statement of a documented module/class variable, in source order, is what the augassign stream checks",
     "what is delegated to astor outside comparison/conditional expressions over names and operators is an opaque leaf: the model is given astor's text; that the text is self-delimiting is checked only by the direct oracle (CPython re-parse)",
     "float/complex constants: the model is given str(value) and applies the inf -> 1e309 replacement itself; numeric formatting is judged by the oracle through the parsed value",
@@ -1735,6 +1740,54 @@ def regex_stream(ctx: Ctx, only: Optional[List[str]] = None, stream: str = "rege
     ctx.count("regex:pattern-respelled-same-regex", n_same)
 
 
+# --------------------------------------------------------------------------- regex colourizer, element level (modelled)
+
+def re_element_stream(ctx: Ctx) -> None:
+    """the two transcribed branches of `_colorize_re_tree` against the real method, called on tiny sre trees:
+    [(LITERAL, c)] for every code point 0..0x2ff and samples above, inside / outside a set, with and without the
+    verbose escapes; [(GROUPREF, n)] alone and followed by a LITERAL (digit, letter, blank, backslash)"""
+    from pydoctor.epydoc.markup._pyval_repr import PyvalColorizer, _ColorizerState
+    from pydoctor.epydoc import sre_constants36 as sc
+    from pydoctor.node2stan import gettext
+
+    def real(tree, in_set: bool, verbose: bool) -> str:
+        col = PyvalColorizer(linelen=None, maxlines=1, linebreakok=False)
+        col._re_keep_verbose_escapes = verbose
+        st = _ColorizerState()
+        st.linebreakok = False
+        col._colorize_re_tree(tree, st, True, {}, in_set=in_set)
+        return "".join(gettext(st.result))
+
+    reqs, impls, pay = [], [], []
+    cps = list(range(0, 0x300)) + [0x3a9, 0x2028, 0xd7ff, 0xe000, 0xfffd, 0xffff, 0x10000, 0x1f600, 0x10ffff] + \
+        [ctx.rng.randrange(0x300, 0xd800) for _ in range(60)]
+    for cp in cps:
+        for ins in (False, True):
+            for vb in (False, True):
+                text = real([(sc.LITERAL, cp)], ins, vb)
+                reqs.append("pyval relit %d %d %d" % (ins, vb, cp))
+                impls.append("ok " + enc(text))
+                pay.append({"element": "LITERAL", "codepoint": cp, "in_set": ins, "verbose": vb})
+                ctx.case("RL|%d|%d|%d" % (cp, ins, vb), False, None)
+                ctx.count("stream:re-elements")
+                ctx.count("re-elements:LITERAL")
+    nexts = [None] + [ord(c) for c in "0123456789a \\#-"]
+    for n in list(range(1, 100)):
+        for nx in nexts:
+            tree = [(sc.GROUPREF, n)] + ([] if nx is None else [(sc.LITERAL, nx)])
+            text = real(tree, False, False)
+            # the model renders the reference; what follows is the literal's own text
+            tail = "" if nx is None else real([(sc.LITERAL, nx)], False, False)
+            assert text.endswith(tail)
+            reqs.append("pyval reref %d %s" % (n, "-" if nx is None else nx))
+            impls.append("ok " + enc(text[:len(text) - len(tail)] if tail else text))
+            pay.append({"element": "GROUPREF", "group": n, "next": nx})
+            ctx.case("RR|%d|%s" % (n, nx), False, None)
+            ctx.count("stream:re-elements")
+            ctx.count("re-elements:GROUPREF")
+    ctx.compare("pyval-re-elements", reqs, impls, pay)
+
+
 # --------------------------------------------------------------------------- corpus: runs FIRST on every run
 
 def corpus_stream(ctx: Ctx) -> None:
@@ -1865,6 +1918,8 @@ def run(ctx: Ctx) -> None:
     augassign_stream(ctx)
     # 11. re.compile(...) constants (regex colourizer; oracle only)
     regex_stream(ctx)
+    # 12. the two transcribed branches of the regex colourizer against the real method
+    re_element_stream(ctx)
     ctx.extra["forms"] = len(FORMS)
 
 
